@@ -215,6 +215,22 @@ Theorem serve_unauth_401 : forall f (valid : str -> bool) q,
   serve f true valid q = R401.
 Proof. intros. unfold serve. now apply gate_unauth_401. Qed.
 
+(** * Configuration -> flags *)
+Lemma config_to_flags : forall (minimal : bool) (remote dashboard pprof : option bool),
+  let f := flags_of_config minimal remote dashboard pprof in
+  (minimal = true -> f = mkFlags false false false) /\
+  (minimal = false ->
+     (f_remote f = false <-> remote = Some false) /\
+     (f_dashboard f = false <-> dashboard = Some false) /\
+     (f_pprof f = false <-> pprof = Some false)).
+Proof.
+  intros minimal remote dashboard pprof. cbv zeta. split; intro H; subst minimal.
+  - reflexivity.
+  - unfold flags_of_config, group_enabled. cbn.
+    repeat split; intro H; try (destruct remote as [[]|]; congruence);
+      try (destruct dashboard as [[]|]; congruence); try (destruct pprof as [[]|]; congruence).
+Qed.
+
 (** * Examples (non-vacuity) *)
 Module HttpGateExamples.
 Import Coq.Strings.String.
